@@ -1,13 +1,40 @@
 """C20 — Sky-dome subdivisions tile the hemisphere; sky projections are consistent.
 
 Model: lean/Ladybug/Model/Dome.lean, Model/Proj.lean; theorems: lean/Ladybug/Props/C20.lean;
-driver: drv_c20.  Tie: translator (Gen/DomeTables from viewsphere.py) + correspondence on the ops below.
+driver: drv_c20.  Tie: translators (Gen/DomeTables from viewsphere.py, Gen/CompassSetters from compass.py) + correspondence on the ops below.
 
 The model describes viewsphere.py *after* the two proposed repairs fixes/C20_patch_area_angle.patch and
 fixes/C20_solid_angle_slot.patch; on a tree without them the check reports the violation.
+
+Round 3 (histories, failure paths, process order, cooperating sites, rare classes):
+  * `hist`      operation histories on ONE ViewSphere (fresh object / module singleton of a freshly executed
+                private copy of viewsphere.py, so class- and module-level state starts from nothing): property
+                reads, calls of every plain method with equal / flag-flipped / other arguments, the same question
+                repeated, refused calls (division / azimuth / altitude counts given as float, Fraction, str, None,
+                list; zero and negative counts; nan / inf / zero / text offsets; a single altitude row), the caller
+                editing a list it was handed, a second object of the same class.  Step by step the model's object
+                state machine (Model/DomeObj.lean, driver op `hist`) is compared with the real object, and the
+                oracle requires every step to answer exactly as a brand-new object of a brand-new module copy does
+                (content, not only sizes) and as the statement says (144 n^2 + 1 ...).
+  * `compass`   one Compass: radius / center / spacing_factor / north_angle assignments (accepted and refused),
+                duplicate(), between reads of the stereographic / orthographic altitude circles and label points
+                (consumers of the projections); driver op `chist` (CompassObj state machine).
+  * `procorder` a slice of the oracle stream (histories on the REAL module and its singleton, single-call cases,
+                projections) is run in 2 (quick) to 4 fresh interpreters side by side, each in another order (refused
+                calls and rare classes first / shuffled / common first); the replay `{"order": [...]}` is the shortest
+                order found that still fails in a fresh interpreter.
+  * `polyline2d`, `projseq`, `sunseq`, call forms of `proj` / `sun2d`: the untouched consumers of the projections
+                (Sunpath.day_polyline2d, one point on several spheres, one Sun asked for several origins / radii /
+                projections incl. north angles, default / keyword / lower-case argument forms).
+In the check process itself histories run on private module copies only, and they come first in the oracle
+stream, so that the first failing input reported is self-contained.
 """
+import json
 import math
+import os
 import struct
+import subprocess
+import sys
 from datetime import datetime
 from fractions import Fraction
 
@@ -17,19 +44,29 @@ from harness.core import compare_batch, err_name, run_oracle_cases
 PROP = 'C20'
 PROOF_MODULES = ['Ladybug.Props.C20']
 GREP_MODULES = ['Ladybug.Py', 'Ladybug.DrvCore', 'Ladybug.Model.Dome', 'Ladybug.Model.Proj',
-                'Ladybug.Gen.DomeTables', 'Ladybug.Proofs.C20Lemmas', 'Ladybug.Proofs.C20Field', 'Ladybug.Drv.C20']
+                'Ladybug.Model.DomeObj', 'Ladybug.Gen.DomeTables', 'Ladybug.Gen.CompassSetters', 'Ladybug.Proofs.C20Lemmas', 'Ladybug.Proofs.C20Field', 'Ladybug.Proofs.C20Hist', 'Ladybug.Drv.C20']
 RULE = ('correspondence: division counts 1..6 (thorough 1..8) x subdivide_in_place, malformed counts 0/-1, '
         'azimuth/altitude counts from {1,2,3,18,72,144} and random 1..144, offset angles 0..90 incl. the '
         'half-row rounding boundaries, nan/inf/negative offsets, every read order of the two solid-angle '
         'tables up to length 4, all ordered pairs + random sequences + full permutations of the eleven lazy '
         'tregenza_*/reinhart_* properties on fresh objects and on a fresh module singleton, projections of points on spheres of random radius/origin incl. horizon and '
-        'zenith; integer structure compared exactly, projections bit-exact, weights within 1e-12 relative. '
+        'zenith; integer structure compared exactly, projections bit-exact, weights within 1e-12 relative; '
+        'operation histories on one ViewSphere (reads, calls with equal / flipped / other arguments, repeated '
+        'questions, refused calls of every malformed class first, edited result lists, a second object) against '
+        'the model state machine step by step; histories of Compass setters (accepted / refused) and duplicate() '
+        'against the Compass state machine. '
         'oracle: the statement evaluated on the real meshes/vectors/weights (true solid angle of every generated '
-        'face from its own vertices). A case is non-trivial when the implementation returns a value; distinct = '
+        'face from its own vertices); every history step must equal the answer of a brand-new object in a '
+        'brand-new module copy; a slice of the stream is re-run in fresh interpreters in 2-4 different orders '
+        '(refused / rare cases first); consumers of the projections (day_polyline2d, altitude circles, one Sun / '
+        'one point asked several questions, default and keyword call forms). '
+        'A case is non-trivial when the implementation returns a value; distinct = '
         'distinct (op, input)')
 TRUSTED_BASE = [
     'translator tools/extract/dome_tables.py: copies TREGENZA/REINHART_PATCHES_PER_ROW and the two coefficient '
     'tables (decimal spelling) from viewsphere.py',
+    'translator tools/extract/compass_setters.py: Compass.ALTITUDES and, per numeric setter, whether the assert '
+    'precedes the store (statement order of the setter body)',
     'modelled, not verified: ladybug_geometry (Vector3D.rotate/rotate_xy, Mesh3D face normals, remove_faces, '
     'join_meshes) - vertex coordinates and face normals are not modelled; that every vector is unit, points up '
     'and lies inside its own patch is a sampled sub-claim evaluated on the real meshes',
@@ -46,8 +83,9 @@ TWO_PI = 2 * math.pi
 
 
 def extract(ctx):
-    from tools.extract import dome_tables
+    from tools.extract import dome_tables, compass_setters
     ctx.tables = dome_tables.extract()
+    ctx.compass = compass_setters.extract()
 
 
 def _fbits(x):
@@ -169,6 +207,588 @@ def _lazy_sequences(ctx, rng, pairs):
         out.append({'order': perm, 'singleton': True})
     return out
 
+
+
+# ---------------------------------------------------------------------------------------------
+# histories on ONE object and in ONE process (round 3)
+#
+# Consumers of every modelled producer (each is exercised by a correspondence op and/or an oracle op):
+#   _patch_row_count_array  -> dome_patches, sphere_patches, horizontal_radial_patches, dome_patch_weights,
+#                              sphere_patch_weights, horizontal_radial_patch_weights (ops rows/layout/dome/
+#                              sphere/weights/sphere_weights/offset_*; hist), the 11 lazy properties (lazy, hist)
+#   _dome_patch_areas       -> dome_patch_weights, sphere_patch_weights, horizontal_radial_patch_weights
+#   dome_patches            -> sphere_patches, horizontal_radial_patches, tregenza_/reinhart_dome_* ,
+#                              tregenza_dome_mesh_high_res
+#   sphere_patches          -> tregenza_/reinhart_sphere_*
+#   _generate_bottom_from_top -> sphere_patches, horizontal_radial_patches
+#   _patch_count_in_radial_offset -> horizontal_radial_patches, horizontal_radial_patch_weights
+#   _dome_radial_patch_areas -> dome_radial_patch_weights
+#   TREGENZA_/REINHART_ tables -> tregenza_/reinhart_solid_angles (tables, lazy, hist)
+#   Compass.point3d_to_stereographic -> Sun.position_2d (sun2d, pos2d_stereo), Sunpath._project_polyline_to_2d
+#                              (day_polyline2d: polyline2d), Compass.stereographic_altitude_circles / _points (compass)
+#   Compass.point3d_to_orthographic -> Sun.position_2d, Sunpath._project_polyline_to_2d,
+#                              (derived) Compass.orthographic_altitude_circles / _points (compass)
+#   Sun.position_3d         -> Sun.position_2d (sun2d), Sunpath.day_arc3d (polyline2d)
+
+CALL_FNS = ['rows', 'dome', 'sphere', 'weights', 'sweights', 'offset', 'offsetw', 'radial', 'radialw']
+LIST_FNS = ['rows', 'weights', 'sweights', 'offsetw', 'radialw']        # hand out a list the caller may edit
+DOME_FNS = ['rows', 'dome', 'sphere', 'weights', 'sweights', 'offset', 'offsetw']
+BAD_KINDS = ['float', 'fraction', 'str', 'none', 'list']
+SCRIBBLES = ['double', 'clear', 'set0', 'append']
+# in the check process itself histories run on private module copies only (self-contained replays, and the
+# real module is not disturbed for the single-call cases); the real module / singleton is used in the
+# fresh interpreters of the process-order runs, where the replay carries the whole order
+OBJECT_KINDS = ['copy', 'copy', 'copy_singleton']
+
+
+def _spoil(n, kind):
+    """An argument equal to / made from the count `n` but of a type the methods cannot use."""
+    return {'float': float(n), 'fraction': Fraction(n), 'str': str(n), 'none': None, 'list': [n]}[kind]
+
+
+def _bad_kinds_for(n):
+    # 1.0 and Fraction(1) compare equal to 1 and are accepted by the code as it is: not refused
+    return [k for k in BAD_KINDS if not (n == 1 and k in ('float', 'fraction'))]
+
+
+def _op_call(fn, *a, **extra):
+    d = {'k': 'call', 'fn': fn, 'a': list(a)}
+    d.update(extra)
+    return d
+
+
+def _op_tok(op):
+    """The model's token for one step."""
+    if op['k'] == 'read':
+        return 'read:' + op['p']
+    if op['k'] in ('scribble', 'renew'):
+        return op['k']
+    if op.get('bad'):
+        return 'bad:' + op['fn']
+    fn, a = op['fn'], op['a']
+    if fn == 'rows':
+        return 'rows:%d' % a[0]
+    if fn in ('dome', 'sphere', 'weights', 'sweights'):
+        return '%s:%d:%s' % (fn, a[0], _b(a[1]))
+    if fn in ('offset', 'offsetw'):
+        return '%s:%s:%d:%s' % (fn, _fbits(a[0]), a[1], _b(a[2]))
+    return '%s:%d:%d' % (fn, a[0], a[1])
+
+
+def _hist_object(kind):
+    """(object, class): `copy*` = a freshly executed private copy of the module (class- and module-level
+    state pristine), `real*` = ladybug.viewsphere itself (state shared with everything this process did)."""
+    import ladybug.viewsphere as lv
+    if kind == 'real':
+        return lv.ViewSphere(), lv.ViewSphere
+    if kind == 'real_singleton':
+        return lv.view_sphere, lv.ViewSphere
+    mod = _module_copy()
+    return (mod.view_sphere if kind == 'copy_singleton' else mod.ViewSphere()), mod.ViewSphere
+
+
+def _module_copy():
+    """A freshly executed private copy of ladybug/viewsphere.py: its class, class attributes, module
+    globals and singleton start from nothing."""
+    import importlib.util
+    import ladybug.viewsphere as lv
+    spec = importlib.util.spec_from_file_location('_c20_viewsphere_copy', lv.__file__)
+    mod = importlib.util.module_from_spec(spec)
+    spec.loader.exec_module(mod)
+    return mod
+
+
+def _do_call(o, cls, op):
+    fn, a = op['fn'], list(op['a'])
+    pos = 1 if fn in ('offset', 'offsetw') else 0
+    if op.get('bad'):
+        if op['bad'] == 'offset_str':
+            a[0] = 'x'
+        else:
+            if op.get('bad_pos') is not None:        # radial: altitude_count instead of azimuth_count
+                pos = op['bad_pos']
+            a[pos] = _spoil(a[pos], op['bad'])
+    kw = {}
+    if op.get('kw') and fn in DOME_FNS and fn != 'rows':
+        kw['subdivide_in_place'] = bool(a.pop())
+    elif fn in ('dome', 'sphere', 'weights', 'sweights', 'offset', 'offsetw') and not a[-1] and not op.get('flag'):
+        a.pop()                       # the flag is passed only when set (default path), unless asked for
+    if fn == 'rows':
+        return cls._patch_row_count_array(a[0])
+    meth = {'dome': 'dome_patches', 'sphere': 'sphere_patches', 'weights': 'dome_patch_weights',
+            'sweights': 'sphere_patch_weights', 'offset': 'horizontal_radial_patches',
+            'offsetw': 'horizontal_radial_patch_weights', 'radial': 'dome_radial_patches',
+            'radialw': 'dome_radial_patch_weights'}[fn]
+    return getattr(o, meth)(*a, **kw)
+
+
+def _summarise(fn, val):
+    """(summary token as the model prints it, canonical content)."""
+    if fn == 'rows':
+        return 'rows:%d:%d' % (len(val), sum(val)), tuple(val)
+    if fn in ('dome', 'sphere', 'radial', 'offset'):
+        mesh, vecs = val
+        canon = (_mesh_key(mesh), _vec_key(vecs))
+        if fn == 'offset':
+            return 'band:%d:%d' % (len(vecs), len(mesh.faces)), canon
+        return 'shape:%d:%d:%d' % (len(mesh.vertices), len(mesh.faces), len(vecs)), canon
+    return 'len:%d' % len(val), tuple(val)
+
+
+def _exec_step(o, cls, op, state):
+    """Execute one step; returns (summary, canonical content | None)."""
+    if op['k'] == 'scribble':
+        last = state.get('last')
+        if isinstance(last, list):
+            how = op.get('how', 'double')
+            if how == 'double':
+                last.extend(list(last))
+            elif how == 'clear':
+                del last[:]
+            elif how == 'set0' and last:
+                last[0] = 1e9
+            else:
+                last.append(7)
+        return 'unit', None
+    try:
+        if op['k'] == 'read':
+            val = getattr(o, op['p'])
+            state['last'] = val
+            if val is None:
+                return 'none', None
+            key = _mesh_key(val) if hasattr(val, 'faces') else \
+                _vec_key(val) if (val and hasattr(val[0], 'z')) else tuple(val)
+            return _fingerprint(val), key
+        val = _do_call(o, cls, op)
+        state['last'] = val
+        return _summarise(op['fn'], val)
+    except Exception as e:
+        return 'err:' + err_name(e), None
+
+
+_FRESH = {}
+
+
+def _fresh_step(op):
+    """The same step on a brand-new object of a brand-new private module copy (nothing happened before)."""
+    key = json.dumps(op, sort_keys=True)
+    if key not in _FRESH:
+        mod = _module_copy()
+        _FRESH[key] = _exec_step(mod.ViewSphere(), mod.ViewSphere, op, {})
+    return _FRESH[key]
+
+
+def _required_summary(op):
+    """What the statement itself requires of a valid step (None where it says nothing)."""
+    if op['k'] != 'call' or op.get('bad'):
+        return None
+    fn, a = op['fn'], op['a']
+    if fn in ('radial', 'radialw'):
+        az, alt = a
+        if az < 1 or alt < 2:
+            return None
+        return 'len:%d' % (az * alt) if fn == 'radialw' else 'shape:%d:%d:%d' % (2 * (az + 1) * (alt - 1) + 1,
+                                                                                 az * alt, az * alt)
+    n = a[1] if fn in ('offset', 'offsetw') else a[0]
+    if n < 1 or fn in ('offset', 'offsetw'):
+        return None
+    pc = 144 * n * n + 1
+    rows = 7 * n if n != 1 else 7
+    nv = 2 * (pc - 1) + 2 * rows + 1
+    return {'rows': 'rows:%d:%d' % (rows, pc - 1), 'dome': 'shape:%d:%d:%d' % (nv, pc - 1 + 6 * n, pc),
+            'sphere': 'shape:%d:%d:%d' % (2 * nv, 2 * (pc - 1 + 6 * n), 2 * pc),
+            'weights': 'len:%d' % pc, 'sweights': 'len:%d' % (2 * pc)}[fn]
+
+
+def _run_history(inp):
+    """Summaries of all steps of a history (for the correspondence)."""
+    o, cls = _hist_object(inp.get('object', 'copy'))
+    state, out = {}, []
+    for op in inp['ops']:
+        if op['k'] == 'renew':
+            o = cls()
+            out.append('unit')
+        else:
+            out.append(_exec_step(o, cls, op, state)[0])
+    return out
+
+
+def _check_history(inp, bad):
+    """History oracle: every step answers exactly as on a fresh object (in particular after refused calls and
+    after the caller edited a list it was handed), and as the statement requires."""
+    kind = inp.get('object', 'copy')
+    o, cls = _hist_object(kind)
+    state, refused, scribbled, done = {}, False, False, []
+    for i, op in enumerate(inp['ops']):
+        tok = _op_tok(op)
+        if op['k'] == 'renew':                 # another object of the same class (same process, same module)
+            o = cls()
+            done.append(tok)
+            continue
+        got = _exec_step(o, cls, op, state)
+        if op['k'] == 'scribble':
+            scribbled = True
+            done.append(tok)
+            continue
+        want = _fresh_step(op)
+        fn = op.get('fn', 'read')
+        sig = dict(fn=fn, after_refused=refused, after_scribble=scribbled)
+        req = _required_summary(op)
+        if req is not None and got[0] != req:
+            return bad('history_statement', 'step %d %s gives %s' % (i, tok, req),
+                       '%s after %s' % (got[0], done or 'nothing'), **sig)
+        if got[0] != want[0]:
+            return bad('history', 'step %d %s answers as on a fresh object: %s' % (i, tok, want[0]),
+                       '%s after %s' % (got[0], done or 'nothing'), **sig)
+        if got[1] != want[1]:
+            return bad('history', 'step %d %s returns the same content as on a fresh object' % (i, tok),
+                       'different content after %s' % (done or 'nothing'), **sig)
+        if got[0].startswith('err:'):
+            refused = True
+        done.append(tok)
+    return None
+
+
+def _histories(ctx, rng, full):
+    """Generated operation histories (JSON-able). `full`: the systematic families completely."""
+    flag = _weights_take_flag()
+    out = []
+
+    def add(ops, obj=None, stratum='random'):
+        ops = [op for op in ops if flag or not (op.get('fn') in ('weights', 'sweights', 'offsetw')
+                                                  and op['a'][-1] is True)]
+        out.append(({'object': obj or rng.choice(OBJECT_KINDS), 'ops': ops}, stratum))
+
+    def call(fn, n, ip, **extra):
+        off = extra.pop('off', None)
+        extra = {k: v for k, v in extra.items() if v}
+        if fn == 'rows':
+            return _op_call('rows', n, **extra)
+        if fn in ('offset', 'offsetw'):
+            return _op_call(fn, rng.choice([30, 45, 60, 90, 12, 30.0]) if off is None else off, n, ip, **extra)
+        return _op_call(fn, n, ip, **extra)
+
+    # (1) ordered pairs of methods on the same / flipped-flag / other-count arguments, asked again afterwards
+    pair_fns = ['dome', 'sphere', 'weights', 'sweights', 'offset', 'offsetw', 'rows']
+    pairs = [(a, b, rel) for a in pair_fns for b in pair_fns for rel in ('same', 'flip', 'other')]
+    if not full:
+        pairs = rng.sample(pairs, 30)
+    for a, b, rel in pairs:
+        heavy = a in ('dome', 'sphere', 'offset') or b in ('dome', 'sphere', 'offset')
+        n = rng.choice([1, 1, 2, 2, 2, 3] if full else [1, 1, 2, 2, 2]) if heavy else rng.randrange(1, 7)
+        ip = rng.random() < 0.5
+        n2, ip2 = (n, ip) if rel == 'same' else (n, not ip) if rel == 'flip' else (n % (2 if heavy else 6) + 1, ip)
+        off = rng.choice([30, 45, 60])
+        add([call(a, n, ip, off=off), call(b, n2, ip2, off=off), call(a, n, ip, off=off)] +
+            ([call(b, n2, ip2, off=off)] if full or not heavy else []), stratum='pair:' + rel)
+    for fn in ('offset', 'offsetw'):            # the same band function asked for another offset / flag / count
+        for other in ('offset', 'offsetw'):
+            n = rng.choice([1, 2, 2, 3])
+            ip = rng.random() < 0.5
+            o1, o2 = rng.sample([12, 30, 45, 60, 75, 90], 2)
+            add([call(fn, n, ip, off=o1), call(other, n, ip, off=o2), call(fn, n, ip, off=o1),
+                 call(other, n, ip, off=o1), call(fn, n, not ip, off=o1)], stratum='pair:other_offset')
+    for _ in range(ctx.n(4, 20)):               # radial domes: other azimuth / altitude counts, then again
+        az, alt = rng.choice([1, 2, 3, 5, 12]), rng.choice([2, 3, 4, 9])
+        ops = [_op_call(f, a, b) for f in ('radial', 'radialw')
+               for a, b in ((az, alt), (az + 1, alt), (az, alt + 1), (alt, az + 1), (az, alt))]
+        rng.shuffle(ops)
+        add(ops, stratum='pair:radial')
+    # (2) a refused call first (wrong type equal to the count, zero, negative, nan ...), then valid ones
+    for n in range(1, 7):
+        for kind in _bad_kinds_for(n):
+            fa = rng.choice(DOME_FNS if n <= (3 if full else 2) else ['rows', 'weights', 'sweights', 'offsetw'])
+            ip = rng.random() < 0.5
+            ops = [call(fa, n, ip, bad=kind)]
+            after = ['rows', 'weights', 'sweights', 'offsetw'] + \
+                (['dome', 'sphere', 'offset'] if n <= (3 if full else 2) else [])
+            rng.shuffle(after)
+            ops += [call(f, n, rng.random() < 0.5) for f in after[:rng.randrange(2, 5)]]
+            if n <= 2:
+                ops.append({'k': 'read', 'p': rng.choice(LAZY_PROPS)})
+            add(ops, stratum='refused_first:type')
+    for n0 in (0, -1):
+        for fa in ('dome', 'sphere', 'weights', 'offset', 'offsetw'):
+            n = rng.choice([1, 2, 3])
+            add([call(fa, n0, rng.random() < 0.5), call(fa, n, False), call('weights', n, False),
+                 call('rows', n, False)], stratum='refused_first:zero_negative')
+    for off in (float('nan'), float('inf'), 0, 0.0, 1e-9):
+        n = rng.choice([1, 2])
+        add([call('offset', n, False, off=off), call('offsetw', n, False, off=off), call('offset', n, False, off=30),
+             call('offsetw', n, False, off=30), call('dome', n, False)], stratum='refused_first:offset')
+    add([_op_call('offset', 30, 2, False, bad='offset_str'), _op_call('offsetw', 30, 2, False, bad='offset_str'),
+         _op_call('offset', 30, 2, False), _op_call('offsetw', 30, 2, False)], stratum='refused_first:offset')
+    for az, alt in ((0, 3), (3, 0), (3, 1), (5, 1)):
+        add([_op_call('radial', az, alt), _op_call('radialw', az, alt), _op_call('radial', max(az, 3), 4),
+             _op_call('radialw', max(az, 3), 4)], stratum='refused_first:radial')
+    for kind in ('float', 'str', 'none', 'fraction'):
+        for pos in (0, 1):
+            az, alt = rng.choice([3, 4, 7]), rng.choice([2, 3, 5])
+            first = [_op_call('radial', az, alt, bad=kind, bad_pos=pos), _op_call('radialw', az, alt, bad=kind, bad_pos=pos)]
+            rng.shuffle(first)
+            add(first + [_op_call('radialw', az, alt), _op_call('radial', az, alt),
+                         _op_call('radialw', az + 1, alt), _op_call('radialw', az, alt + 1)],
+                stratum='refused_first:radial')
+    # (3) the caller edits a list it was handed
+    for fn in LIST_FNS:
+        for how in SCRIBBLES:
+            n = rng.randrange(2, 5)
+            first = _op_call('radialw', n + 2, n + 1) if fn == 'radialw' else call(fn, n, False, off=45)
+            others = [call(f, n, False, off=45) for f in rng.sample(['rows', 'weights', 'sweights', 'offsetw'], 2)]
+            add([first, {'k': 'scribble', 'how': how}, dict(first)] + others +
+                ([call('dome', n, False)] if n <= 3 else []), stratum='scribble')
+    # (4) the same question several times; reads and calls mixed
+    for fn in ('sweights', 'weights', 'sphere', 'dome', 'offsetw', 'offset', 'rows'):
+        n = rng.choice([1, 2, 3])
+        ip = rng.random() < 0.5
+        add([call(fn, n, ip, off=60)] * 3, stratum='repeated')
+    add([call('sweights', 2, False), call('weights', 2, False), call('sweights', 2, False)], 'copy', 'repeated')
+    add([call('sphere', 2, True), {'k': 'read', 'p': 'reinhart_sphere_vectors'}, call('sphere', 2, True),
+         {'k': 'read', 'p': 'reinhart_dome_mesh'}, call('sphere', 2, False)], stratum='reads_and_calls')
+    add([{'k': 'read', 'p': 'reinhart_dome_vectors'}, call('sphere', 2, True), call('dome', 2, True),
+         {'k': 'read', 'p': 'tregenza_dome_mesh_high_res'}, call('dome', 3, True), call('dome', 3, False)],
+        stratum='reads_and_calls')
+    for p in LAZY_PROPS:           # what one object read must not show up in another object's slots
+        q = rng.choice(LAZY_PROPS)
+        add([{'k': 'read', 'p': p}, {'k': 'renew'}, {'k': 'read', 'p': q}, {'k': 'read', 'p': p}],
+            stratum='second_object')
+    for _ in range(ctx.n(18, 200)):
+        ops = []
+        for _ in range(rng.randrange(3, 9)):
+            t = rng.random()
+            n = rng.choice([1, 1, 2, 2, 3])
+            if t < 0.3:
+                ops.append({'k': 'read', 'p': rng.choice(LAZY_PROPS)})
+            elif t < 0.35:
+                ops.append({'k': 'renew'})
+            elif t < 0.42:
+                ops.append({'k': 'scribble', 'how': rng.choice(SCRIBBLES)})
+            elif t < 0.55:
+                f = rng.choice(DOME_FNS)
+                ops.append(call(f, n, rng.random() < 0.5, bad=rng.choice(_bad_kinds_for(n))))
+            elif t < 0.6:
+                ops.append(call(rng.choice(DOME_FNS), rng.choice([0, -1]), rng.random() < 0.5))
+            elif t < 0.7:
+                az, alt = rng.choice([1, 2, 3, 7]), rng.choice([1, 2, 3, 5])
+                ops.append(_op_call(rng.choice(['radial', 'radialw']), az, alt))
+            else:
+                ops.append(call(rng.choice(DOME_FNS), n, rng.random() < 0.5, kw=rng.random() < 0.3,
+                                flag=rng.random() < 0.3))
+        add(ops, stratum='reads_and_calls')
+    return out
+
+
+# --- Compass: one object, setters (accepted and refused) between reads of the altitude circles
+
+COMPASS_ALTS = (10, 20, 30, 40, 50, 60, 70, 80)
+
+
+def _compass_tok(op):
+    k = op['k']
+    if k == 'setr':
+        return 'setr_text' if isinstance(op['v'], str) else 'setr:' + _fbits(op['v'])
+    if k == 'sets':
+        return 'sets:' + _fbits(op['v'])
+    if k == 'setc':
+        return 'setc_other' if op.get('other') else 'setc:%s:%s' % (_fbits(op['x']), _fbits(op['y']))
+    return k           # reads / reado / dup
+
+
+def _compass_apply(c, op):
+    from ladybug_geometry.geometry2d.pointvector import Point2D
+    k = op['k']
+    if k == 'setr':
+        c.radius = op['v']
+    elif k == 'sets':
+        c.spacing_factor = op['v']
+    elif k == 'setc':
+        c.center = (op['x'], op['y']) if op.get('other') else Point2D(op['x'], op['y'])
+
+
+def _compass_circles(c, which):
+    arcs = c.stereographic_altitude_circles if which == 'reads' else c.orthographic_altitude_circles
+    return arcs
+
+
+def _run_compass_history(inp):
+    from ladybug.compass import Compass
+    from ladybug_geometry.geometry2d.pointvector import Point2D
+    c = Compass(inp['r0'], Point2D(inp['cx0'], inp['cy0']))
+    out = []
+    for op in inp['ops']:
+        try:
+            if op['k'] == 'dup':
+                c = c.duplicate()
+                out.append('done')
+            elif op['k'] in ('reads', 'reado'):
+                arcs = _compass_circles(c, op['k'])
+                out.append('circles:%s:%s:%s' % (_fbits(arcs[0].c.x), _fbits(arcs[0].c.y),
+                                                 ','.join(_fbits(a.r) for a in arcs)))
+            else:
+                _compass_apply(c, op)
+                out.append('done')
+        except Exception as e:
+            out.append('err:' + err_name(e))
+    return out
+
+
+def _check_compass(inp, bad):
+    """After every step the altitude circles are the images of the altitude rings of the compass the user has
+    established (last accepted radius / center): centred on the center, radius = distance of the projected ring
+    from the center (own formulas), inside the compass circle; the label points sit 1 % of the radius inside."""
+    from ladybug.compass import Compass
+    from ladybug_geometry.geometry2d.pointvector import Point2D
+    c = Compass(inp['r0'], Point2D(inp['cx0'], inp['cy0']))
+    R, cx, cy = float(inp['r0']), float(inp['cx0']), float(inp['cy0'])
+    refused_attr, done = None, []
+    for i, op in enumerate(inp['ops']):
+        k = op['k']
+        if k in ('setr', 'sets', 'setc', 'setn', 'dup'):
+            try:
+                if k == 'dup':
+                    c = c.duplicate()
+                elif k == 'setn':
+                    c.north_angle = op['v']
+                else:
+                    _compass_apply(c, op)
+                if k == 'setr':
+                    R = float(op['v'])
+                elif k == 'setc':
+                    cx, cy = float(op['x']), float(op['y'])
+            except Exception:
+                refused_attr = {'setr': 'radius', 'sets': 'spacing_factor', 'setc': 'center',
+                                'setn': 'north_angle', 'dup': refused_attr or 'duplicate'}[k]
+        done.append(_compass_tok(op))
+        sig = dict(after_refused=refused_attr or 'none')
+        for name, f in (('stereographic', lambda a: math.cos(a) / (1 + math.sin(a))), ('orthographic', math.cos)):
+            want = [R * f(math.radians(a)) for a in COMPASS_ALTS]
+            try:
+                arcs = getattr(c, name + '_altitude_circles')
+                pts = getattr(c, name + '_altitude_points')
+                got = [(a.c.x, a.c.y, a.r) for a in arcs]
+                gp = [math.hypot(q.x - cx, q.y - cy) for q in pts]
+            except Exception as e:
+                if refused_attr:
+                    return bad('refused_setter_kept', 'a refused assignment leaves the compass as it was: %s '
+                               'altitude circles of radius %r around (%r, %r)' % (name, R, cx, cy),
+                               'raises %s after %s' % (type(e).__name__, done), attr=refused_attr, projection=name)
+                return bad('compass_circles', '%s altitude circles' % name, 'raises %s after %s'
+                           % (type(e).__name__, done), projection=name, **sig)
+            tol = 1e-9 * (abs(R) + abs(cx) + abs(cy))
+            if len(got) != len(want) or len(gp) != len(want):
+                return bad('compass_circles', '%d %s altitude circles and labels' % (len(want), name),
+                           (len(got), len(gp)), projection=name, **sig)
+            for j, (w, g, d) in enumerate(zip(want, got, gp)):
+                if abs(g[0] - cx) > tol or abs(g[1] - cy) > tol or abs(g[2] - w) > tol or g[2] > R + tol \
+                        or abs(d - (w - 0.01 * R)) > tol:
+                    what = 'refused_setter_kept' if refused_attr else 'compass_circles'
+                    extra = dict(attr=refused_attr) if refused_attr else sig
+                    return bad(what, '%s circle of altitude %d: centre (%r, %r) radius %r, label at %r'
+                               % (name, COMPASS_ALTS[j], cx, cy, w, w - 0.01 * R),
+                               'centre (%r, %r) radius %r, label at %r after %s' % (g[0], g[1], g[2], d, done),
+                               projection=name, **extra)
+    return None
+
+
+def _compass_histories(ctx, rng):
+    out = []
+    for i in range(ctx.n(40, 400)):
+        r0 = rng.choice([100, 1, 1.0, 0.5, rng.uniform(0.01, 1e4)])
+        cx0, cy0 = rng.choice([(0, 0), (0.0, 0.0), (rng.uniform(-1e3, 1e3), rng.uniform(-1e3, 1e3)), (5.0, 5.0)])
+        ops = []
+        for _ in range(rng.randrange(1, 7)):
+            t = rng.random()
+            if t < 0.35:
+                ops.append({'k': 'setr', 'v': rng.choice([1, 100, 0.25, rng.uniform(0.01, 1e4)])})
+            elif t < 0.6:
+                ops.append({'k': 'setc', 'x': rng.choice([0.0, rng.uniform(-1e3, 1e3)]),
+                            'y': rng.choice([0.0, rng.uniform(-1e3, 1e3)])})
+            elif t < 0.7:
+                ops.append({'k': 'sets', 'v': rng.choice([0.15, 1, rng.uniform(0.01, 2)])})
+            elif t < 0.8:
+                ops.append({'k': 'setc', 'x': 1.0, 'y': 2.0, 'other': True})         # refused: not a Point2D
+            elif t < 0.9:
+                ops.append({'k': 'setr', 'v': 'wide'})                               # refused: not a number
+            else:
+                ops.append({'k': 'sets', 'v': rng.choice([0.3, 2, 0, -1])})     # 0 / -1: refused
+            if rng.random() < 0.25:
+                ops.append({'k': 'dup'})
+            ops.append({'k': rng.choice(['reads', 'reado'])})
+        out.append({'r0': r0, 'cx0': cx0, 'cy0': cy0, 'ops': ops})
+    # refused radius (zero / negative): the code keeps the refused number (known finding) - a few only
+    for v in (-5, 0, -0.0, -1e-9)[:ctx.n(2, 4)]:
+        out.append({'r0': 100, 'cx0': 0.0, 'cy0': 0.0,
+                    'ops': [{'k': 'reads'}, {'k': 'setr', 'v': v}, {'k': 'reads'}, {'k': 'reado'}]})
+    return out
+
+
+# --- process-order independence: the same cases in fresh interpreters, in different orders
+
+_ROOT = os.path.dirname(os.path.dirname(os.path.dirname(os.path.abspath(__file__))))
+
+
+def _worker_main():
+    """Entry point of a fresh interpreter: evaluate the cases read from stdin in the given order."""
+    sys.path.insert(0, os.environ.get('LADYBUG_REPO', '/repo'))
+    data = json.load(sys.stdin)
+    out = []
+    for i, (op, inp) in enumerate(data['cases']):
+        try:
+            res = check_case(op, inp)
+        except Exception as e:
+            res = {'required': 'the case evaluates', 'observed': 'exception %s: %s' % (type(e).__name__, e),
+                   'sig': {'what': 'raises', 'exception': type(e).__name__}}
+        if res:
+            out.append([i, res])
+            if len(out) >= 3:
+                break
+    sys.stdout.write('\n@@C20WORKER@@' + json.dumps(out, default=str))
+
+
+def _run_in_fresh_process(cases):
+    """First failures [[index, result], ...] of the ordered cases in a fresh interpreter."""
+    code = ('import sys; sys.path.insert(0, %r); from harness.props import c20; c20._worker_main()' % _ROOT)
+    env = dict(os.environ)
+    env.setdefault('LADYBUG_REPO', core.REPO)
+    pr = subprocess.run([sys.executable, '-c', code], input=json.dumps({'cases': cases}), env=env,
+                        capture_output=True, text=True, timeout=600)
+    if '@@C20WORKER@@' not in pr.stdout:
+        return [[-1, {'required': 'the interpreter finishes the cases', 'observed': (pr.stderr or pr.stdout)[-400:],
+                      'sig': {'what': 'process_died'}}]]
+    return json.loads(pr.stdout.split('@@C20WORKER@@')[-1])
+
+
+def _check_process_order(inp, bad):
+    res = _run_in_fresh_process(inp['order'])
+    if not res:
+        return None
+    i, r = res[0]
+    sig = dict(r.get('sig') or {})
+    what = sig.pop('what', 'failure')
+    sig.pop('op', None)
+    sig['case_op'] = inp['order'][i][0] if i >= 0 else 'none'
+    return bad('in_process_order:' + what, 'case %d (%s) of the order holds in a fresh process: %s'
+               % (i, json.dumps(inp['order'][i], default=str)[:300] if i >= 0 else '-', r.get('required')),
+               r.get('observed'), **sig)
+
+
+def _shrink_order(order, index):
+    """Try to cut the order down to the failing case and (one of) the earlier cases it depends on."""
+    fail = order[index]
+    if _run_in_fresh_process([fail]):
+        return [fail]
+    prefix = order[:index]
+    tries = 0
+    while len(prefix) > 1 and tries < 5:
+        half = len(prefix) // 2
+        tries += 1
+        if _run_in_fresh_process(prefix[half:] + [fail]):
+            prefix = prefix[half:]
+        elif _run_in_fresh_process(prefix[:half] + [fail]):
+            prefix = prefix[:half]
+        else:
+            break
+    return prefix + [fail]
 
 # ---------------------------------------------------------------------------------------------
 # correspondence
@@ -381,6 +1001,34 @@ def correspondence(ctx):
     compare_batch(ctx, 'lazy_reads', lz, lambda c: 'lazy_reads ' + ' '.join(c['order']), impl_lazy,
                   key=lambda c: (c['singleton'], tuple(c['order'])))
 
+
+    # --- histories on ONE object: the model's object state machine vs the real object, step by step
+    hs = _histories(ctx, rng, full=not ctx.quick)
+    if ctx.quick and not ctx.searching:      # the oracle runs a full set of its own; here every second one
+        hs = hs[::2]
+    for h, stratum in hs:
+        ctx.count('hist:' + stratum)
+        ctx.count('hist_object:' + h['object'])
+    compare_batch(ctx, 'hist', [h for h, _ in hs if h['ops']],
+                  lambda c: 'hist ' + ' '.join(_op_tok(o) for o in c['ops']),
+                  lambda c: 'ok ' + ' '.join(_run_history(c)), key=lambda c: json.dumps(c, sort_keys=True, default=str))
+
+    # --- one Compass object: setters (accepted / refused) and reads of the altitude circles
+    chs = _compass_histories(ctx, rng)
+    lines = ['chist %s %s %s %s' % (_fbits(c['r0']), _fbits(c['cx0']), _fbits(c['cy0']),
+                                    ' '.join(_compass_tok(o) for o in c['ops'])) for c in chs]
+    outs = ctx.driver().run(lines)
+    for c, line, mo in zip(chs, lines, outs):
+        try:
+            io = 'ok ' + ' '.join(_run_compass_history(c))
+        except Exception as e:
+            io = 'err:' + err_name(e)
+        ctx.compared += 1
+        ctx.count('op:chist')
+        ctx.case(('chist', line))
+        if not _same_chist(mo, io):
+            ctx.disagree('chist', {'case': c, 'line': line}, mo[:300], io[:300])
+
     # --- projections (bit-exact)
     pts = list(_proj_points(rng, ctx.n(3000, 40000)))
     compare_floats(ctx, 'ortho', pts, lambda c: 'ortho ' + ' '.join(_fbits(x) for x in c['p']),
@@ -411,6 +1059,22 @@ def correspondence(ctx):
     compare_floats(ctx, 'pos2d_stereo', suns, sun_line('pos2d_stereo'),
                    lambda c: _show_pt2(_sun(c[0], c[1]).position_2d('stereographic', Point2D(c[3], c[4]), c[2])),
                    0.0, key=lambda c: repr(c))
+
+
+def _same_chist(mo, io, tol=1e-12):
+    a, b = mo.split(), io.split()
+    if len(a) != len(b):
+        return False
+    for x, y in zip(a, b):
+        if x == y:
+            continue
+        if not (x.startswith('circles:') and y.startswith('circles:')):
+            return False
+        fx = [_unbits(t) for t in x[8:].replace(':', ',').split(',')]
+        fy = [_unbits(t) for t in y[8:].replace(':', ',').split(',')]
+        if len(fx) != len(fy) or any(abs(p - q) > tol * max(abs(p), abs(q), 1e-300) for p, q in zip(fx, fy)):
+            return False
+    return True
 
 
 def _show_pt2(p):
@@ -531,6 +1195,13 @@ def check_case(op, inp):
             return bad('mesh_rows', 'quads then zenith triangles with a level top ring', 'other', **base)
         if abs(sum(omegas) - TWO_PI) > 1e-9:
             return bad('tiling', 'solid angles of the generated patches sum to 2 pi', sum(omegas), **base)
+        if ip:
+            # subdividing in place: every n-th row boundary is a Tregenza row boundary (k pi / 15), so that the
+            # n x n sub-patches lie inside their own Tregenza patch
+            lay = _measure_layout(mesh)
+            if lay is None or lay[1] != 15 * n or len(lay[0]) != 7 * n:
+                return bad('in_place_rows', '%d rows pi / %d apart (Tregenza rows cut into %d)' % (7 * n, 15 * n, n),
+                           'other' if lay is None else '%d rows pi / %d apart' % (len(lay[0]), lay[1]), **base)
         # sampled sub-claim: unit, upward, inside its own patch
         for i, v in enumerate(vecs[:-1]):
             pr = _vector_problem(v, _face_cell(mesh.vertices, mesh.faces[i]))
@@ -614,7 +1285,12 @@ def check_case(op, inp):
     if op == 'offset':
         off, n, ip = inp['offset_angle'], inp['n'], bool(inp['in_place'])
         base = {'n': n, 'in_place': ip}
-        mesh, vecs = vs.horizontal_radial_patches(off, n, ip)
+        try:
+            mesh, vecs = vs.horizontal_radial_patches(off, n, ip)
+        except Exception:
+            if 90.0 * 0.5 / (7 * n + 1) < off <= 90:     # the band holds at least one row: it must exist
+                raise
+            return None        # an empty band (offset 0 or below half a row) has no patches to speak of
         if len(mesh.faces) != len(vecs):
             return bad('offset_faces', len(vecs), len(mesh.faces), **base)
         half = len(vecs) // 2
@@ -625,7 +1301,11 @@ def check_case(op, inp):
         if ip and not _weights_take_flag():
             return None
         args = (off, n, True) if ip else (off, n)
-        ws = vs.horizontal_radial_patch_weights(*args)
+        try:
+            ws = vs.horizontal_radial_patch_weights(*args)
+        except ZeroDivisionError:
+            return bad('weights_aligned', '%d weights for the %d patches of the band' % (len(vecs), len(vecs)),
+                       'raises ZeroDivisionError', **base)
         if len(ws) != len(vecs):
             return bad('weights_aligned', len(vecs), len(ws), **base)
         if not _mean_one(ws):
@@ -737,12 +1417,165 @@ def check_case(op, inp):
                                'differs after reading %s' % seen, **base)
         return None
 
+    if op == 'hist':
+        return _check_history(inp, bad)
+
+    if op == 'compass':
+        return _check_compass(inp, bad)
+
+    if op == 'procorder':
+        return _check_process_order(inp, bad)
+
+    if op == 'projseq':
+        # the same point asked for several spheres through it, in one process (also the same question twice)
+        P = inp['p']
+        for k, (r, alt, az) in enumerate(inp['queries']):
+            d = (math.cos(alt) * math.sin(az), math.cos(alt) * math.cos(az), math.sin(alt))
+            o = [P[0] - r * d[0], P[1] - r * d[1], P[2] - r * d[2]]
+            if alt < 0:                       # the projection pole (division by zero): a refused question
+                try:
+                    Compass.point3d_to_stereographic(Point3D(*P), r, Point3D(P[0], P[1], P[2] + r))
+                except Exception:
+                    pass
+                continue
+            res = check_case('proj', {'p': P, 'r': r, 'o': o})
+            if res:
+                res['sig']['query'] = 'first' if k == 0 else 'later'
+                res['observed'] = '%s (query %d of the sequence)' % (res['observed'], k)
+                return res
+        return None
+
+    if op == 'sunseq':
+        # ONE Sun object asked for several origins / radii / projections, in any order and repeatedly
+        from ladybug.sunpath import Sun
+        north = inp.get('north', 0)
+        s = Sun(datetime(2017, 6, 21, 12), inp['altitude'], inp['azimuth'], False, False, north)
+        ar, zr = math.radians(inp['altitude']), math.radians(inp['azimuth'] - north)
+        d = (math.cos(ar) * math.sin(zr), math.cos(ar) * math.cos(zr), math.sin(ar))
+        for k, (name, ox, oy, r) in enumerate(inp['queries']):
+            scale = r + abs(ox) + abs(oy)
+            if name == 'Mercator':            # a refused question in between: nothing to require of it
+                try:
+                    s.position_2d(name, Point2D(ox, oy), r)
+                except Exception:
+                    pass
+                continue
+            base = {'projection': name.lower(), 'query': 'first' if k == 0 else 'later',
+                    'north': 'zero' if north == 0 else 'rotated'}
+            if name == '3d':
+                q = s.position_3d(Point3D(ox, oy, 0), r)
+                got, want = (q.x, q.y, q.z), (ox + r * d[0], oy + r * d[1], r * d[2])
+            else:
+                q = s.position_2d(name, Point2D(ox, oy), r)
+                kk = 1.0 if name.lower() == 'orthographic' else 1.0 / (1.0 + d[2])
+                got, want = (q.x, q.y), (ox + r * kk * d[0], oy + r * kk * d[1])
+                if math.hypot(q.x - ox, q.y - oy) > r + 1e-9 * scale:
+                    return bad('outside_circle', 'image within radius %r of (%r, %r)' % (r, ox, oy),
+                               got, **base)
+            if max(abs(a - b) for a, b in zip(got, want)) > 1e-9 * scale:
+                return bad('sun_position', 'query %d %s: %r' % (k, name, want), got, **base)
+        return None
+
+    if op == 'polyline2d':
+        # consumers of both projections: Sunpath.day_polyline2d (and, for some cases, monthly_day_polyline2d and
+        # hourly_analemma_polyline2d) = the projected vertices of the corresponding 3D paths, which lie on the
+        # sphere of the given radius around the origin; the same Sunpath is asked for a second origin / radius
+        # and then for the first again
+        from ladybug.sunpath import Sunpath
+        div = inp.get('divisions', 10)
+        sp = Sunpath(inp['lat'], inp['lon'], inp['tz'])
+        first = (inp['r'], inp['ox'], inp['oy'])
+
+        def compare(v3, pl2, name, r, ox, oy, base):
+            scale = r + abs(ox) + abs(oy)
+            if pl2 is None or len(pl2.vertices) != len(v3):
+                return bad('polyline2d', '%d projected vertices' % len(v3),
+                           None if pl2 is None else len(pl2.vertices), **base)
+            for q3, q2 in zip(v3, pl2.vertices):
+                c = (q3.x - ox, q3.y - oy, q3.z)
+                # (analemmas are cut at the horizon by linear interpolation: their end points lie inside the sphere)
+                if abs(math.sqrt(c[0] ** 2 + c[1] ** 2 + c[2] ** 2) - r) > \
+                        (0.1 * r if base.get('path') == 'analemma' else 1e-6 * scale):
+                    return bad('arc3d', 'sun path on the sphere of radius %r around (%r, %r, 0)' % (r, ox, oy),
+                               (q3.x, q3.y, q3.z), **base)
+                k = 1.0 if name == 'Orthographic' else r / (r + c[2])
+                want = (ox + k * c[0], oy + k * c[1])
+                if abs(want[0] - q2.x) > 1e-9 * scale or abs(want[1] - q2.y) > 1e-9 * scale:
+                    return bad('polyline2d', 'vertex %r' % (want,), (q2.x, q2.y), **base)
+                if c[2] >= -0.02 * r and math.hypot(q2.x - ox, q2.y - oy) > 1.02 * r + 1e-9 * scale:
+                    return bad('outside_circle', 'sun path within the compass circle (radius %r)' % r,
+                               (q2.x, q2.y), **base)
+            return None
+
+        asks = (first, (2 * first[0], first[1] + first[0], first[2] - 3 * first[0]), first)
+        for ask, (r, ox, oy) in enumerate(asks):
+            arc = sp.day_arc3d(inp['month'], inp['day'], Point3D(ox, oy, 0), r)
+            for name in ('Orthographic', 'Stereographic', 'stereographic'):
+                base = {'projection': name.lower(), 'query': 'first' if ask == 0 else 'later', 'path': 'day'}
+                pl2 = sp.day_polyline2d(inp['month'], inp['day'], name, Point2D(ox, oy), r, divisions=div)
+                if arc is None:
+                    if pl2 is not None:
+                        return bad('polyline2d', 'no path (sun never up)', 'a polyline', **base)
+                    continue
+                res = compare(arc.to_polyline(div, interpolated=True).vertices, pl2, name, r, ox, oy, base)
+                if res:
+                    return res
+            if inp.get('all_paths') and ask < 2:
+                for name in ('Orthographic', 'Stereographic'):
+                    base = {'projection': name.lower(), 'query': 'first' if ask == 0 else 'later'}
+                    arcs = sp.monthly_day_arc3d(Point3D(ox, oy, 0), r)
+                    pls = sp.monthly_day_polyline2d(name, Point2D(ox, oy), r, divisions=div)
+                    if len(arcs) != len(pls):
+                        return bad('polyline2d', '%d monthly paths' % len(arcs), len(pls), path='monthly', **base)
+                    for a3, p2 in zip(arcs, pls):
+                        res = compare(a3.to_polyline(div, interpolated=True).vertices, p2, name, r, ox, oy,
+                                      dict(base, path='monthly'))
+                        if res:
+                            return res
+                    try:
+                        an3 = sp.hourly_analemma_polyline3d(Point3D(ox, oy, 0), r)
+                    except AssertionError:
+                        continue            # an analemma with two daytime points only: no polyline in 3D either
+                    an2 = sp.hourly_analemma_polyline2d(name, Point2D(ox, oy), r)
+                    if len(an3) != len(an2):
+                        return bad('polyline2d', '%d analemmas' % len(an3), len(an2), path='analemma', **base)
+                    for a3, p2 in zip(an3, an2):
+                        res = compare(a3.vertices, p2, name, r, ox, oy, dict(base, path='analemma'))
+                        if res:
+                            return res
+        return None
+
     if op in ('proj', 'sun2d'):
         r = inp['r']
+        mode = inp.get('call', 'full')
         if op == 'proj':
             p, o = inp['p'], inp['o']
             po = Compass.point3d_to_orthographic(Point3D(*p))
-            ps = Compass.point3d_to_stereographic(Point3D(*p), r, Point3D(*o))
+            if mode == 'defaults':        # radius 100, origin (0, 0, 0) left to the defaults
+                ps = Compass.point3d_to_stereographic(Point3D(*p))
+            elif mode == 'radius_only':
+                ps = Compass.point3d_to_stereographic(Point3D(*p), r)
+            elif mode == 'origin_kw':
+                ps = Compass.point3d_to_stereographic(Point3D(*p), origin=Point3D(*o))
+            elif mode == 'instance':      # through a Compass object of another radius / center
+                ps = Compass(7, Point2D(3, 4)).point3d_to_stereographic(Point3D(*p), r, Point3D(*o))
+            else:
+                ps = Compass.point3d_to_stereographic(Point3D(*p), r, Point3D(*o))
+        elif mode != 'full':
+            s = _sun(inp['altitude'], inp['azimuth'])
+            o = [inp['ox'], inp['oy'], 0.0]
+            q = s.position_3d() if mode == 'defaults' else s.position_3d(Point3D(*o), r)
+            p = [q.x, q.y, q.z]
+            if mode == 'defaults':        # origin (0, 0), radius 100 left to the defaults
+                po, ps = s.position_2d(), s.position_2d('Stereographic')
+            else:                          # keywords, lower-case projection names
+                po = s.position_2d(radius=r, origin=Point2D(o[0], o[1]))
+                ps = s.position_2d('stereographic', radius=r, origin=Point2D(o[0], o[1]))
+            ar, zr = math.radians(inp['altitude']), math.radians(inp['azimuth'])
+            want = [o[0] + r * math.cos(ar) * math.sin(zr), o[1] + r * math.cos(ar) * math.cos(zr),
+                    r * math.sin(ar)]
+            if max(abs(a - b) for a, b in zip(p, want)) > 1e-9 * (r + abs(o[0]) + abs(o[1])):
+                return bad('position_3d', want, p, projection='none')
         else:
             s = _sun(inp['altitude'], inp['azimuth'])
             o = [inp['ox'], inp['oy'], 0.0]
@@ -791,6 +1624,12 @@ replay = check_case
 def _oracle_cases(ctx):
     rng = ctx.rng
     big = ctx.searching or not ctx.quick
+    # histories on one object first: they run on private module copies, so their replays are self-contained
+    # whatever else this process did before
+    for h, stratum in _histories(ctx, rng, full=big):
+        if h['ops']:
+            ctx.count('oracle_hist:' + stratum)
+            yield 'hist', h
     # fixed corpus (includes the example inputs of the findings and of the repaired defects)
     yield 'radial', {'azimuth_count': 3, 'altitude_count': 1}
     yield 'tables', {'order': [0, 1]}
@@ -805,6 +1644,24 @@ def _oracle_cases(ctx):
                    'singleton': False}
     for c in _lazy_sequences(ctx, rng, pairs=big):
         yield 'lazy', c
+    yield 'compass', {'r0': 100, 'cx0': 0.0, 'cy0': 0.0,
+                      'ops': [{'k': 'reads'}, {'k': 'setr', 'v': -5}, {'k': 'reads'}]}      # known finding
+    for c in _compass_histories(ctx, rng):
+        yield 'compass', c
+        if rng.random() < 0.3:          # the same with north angles (accepted and refused) in between
+            ops = []
+            for o in c['ops']:
+                ops.append(o)
+                if rng.random() < 0.4:
+                    ops.append({'k': 'setn', 'v': rng.choice([0, 30, -90, 360, 400, -720.5, 'north'])})
+            if not any(o['k'] == 'setr' and not isinstance(o['v'], str) and not o['v'] > 0 for o in ops):
+                yield 'compass', dict(c, ops=ops)
+    for c in _polyline_cases(ctx, rng, 60 if big else 12):
+        yield 'polyline2d', c
+    for c in _proj_mode_cases(rng, 3000 if big else 300):
+        yield c
+    for c in _seq_cases(rng, 2000 if big else 200):
+        yield c
     top = 8 if big else 6
     for n in range(1, top + 1):
         for ip in (False, True):
@@ -820,7 +1677,8 @@ def _oracle_cases(ctx):
             yield 'radial', {'azimuth_count': a, 'altitude_count': b}
     for n in range(1, (5 if big else 3) + 1):
         for ip in (False, True):
-            offs = [6, 12, 30, 45, 60, 89, 90] + [round(rng.uniform(13, 90), 3) for _ in range(10 if big else 2)]
+            offs = [0, 0.0, 1e-9, 6, 12, 30, 45, 60, 89, 90, 90.0] + \
+                [round(rng.uniform(13, 90), 3) for _ in range(10 if big else 2)]
             for off in offs:
                 yield 'offset', {'offset_angle': off, 'n': n, 'in_place': ip}
     for c in _proj_points(rng, 40000 if big else 4000):
@@ -833,6 +1691,139 @@ def _oracle_cases(ctx):
         yield 'sun2d', {'altitude': alt, 'azimuth': az, 'r': r, 'ox': ox, 'oy': oy}
 
 
+def _polyline_cases(ctx, rng, count):
+    for _ in range(count):
+        lat = rng.choice([0, 40, -35, 66.5, -80, 85, rng.uniform(-90, 90)])
+        lon = rng.choice([0, -74, 151, rng.uniform(-180, 180)])
+        ox, oy = rng.choice([(0.0, 0.0), (250.0, -40.0), (rng.uniform(-1e3, 1e3), rng.uniform(-1e3, 1e3))])
+        yield {'lat': lat, 'lon': lon, 'tz': int(round(lon / 15.0)), 'month': rng.randrange(1, 13),
+               'day': rng.randrange(1, 29), 'r': rng.choice([100, 1, rng.uniform(0.01, 1e4)]), 'ox': ox, 'oy': oy,
+               'divisions': rng.choice([10, 3, 24]), 'all_paths': rng.random() < 0.25}
+
+
+def _proj_mode_cases(rng, count):
+    """Default / keyword / lower-case call forms of the projections (rare argument classes)."""
+    for i in range(count):
+        alt = rng.choice([0.0, math.pi / 2, rng.uniform(0, math.pi / 2)])
+        az = rng.choice([0.0, math.pi / 2, math.pi, rng.uniform(0, TWO_PI)])
+        mode = ('defaults', 'radius_only', 'origin_kw', 'instance')[i % 4]
+        r = 100 if mode in ('defaults', 'origin_kw') else rng.choice([1, 1.0, 100.0, rng.uniform(0.01, 1e4)])
+        o = [0.0, 0.0, 0.0] if mode in ('defaults', 'radius_only') else \
+            [rng.choice([0.0, rng.uniform(-10, 10) * r]) for _ in range(3)]
+        p = [o[0] + r * math.cos(alt) * math.sin(az), o[1] + r * math.cos(alt) * math.cos(az),
+             o[2] + r * abs(math.sin(alt))]
+        yield 'proj', {'p': p, 'r': r, 'o': o, 'call': mode}
+        salt = rng.choice([0, 90, 45, rng.uniform(0, 90)])
+        saz = rng.choice([0, 90, 180, 270, rng.uniform(0, 360)])
+        if i % 2:
+            yield 'sun2d', {'altitude': salt, 'azimuth': saz, 'r': 100, 'ox': 0.0, 'oy': 0.0, 'call': 'defaults'}
+        else:
+            rr = rng.choice([1, 100, rng.uniform(0.01, 1e4)])
+            yield 'sun2d', {'altitude': salt, 'azimuth': saz, 'r': rr, 'ox': rng.choice([0.0, rng.uniform(-10, 10) * rr]),
+                            'oy': rng.choice([0.0, rng.uniform(-10, 10) * rr]), 'call': 'keywords'}
+
+
+def _seq_cases(rng, count):
+    """One point / one Sun asked several different (and repeated) questions."""
+    for _ in range(count):
+        P = [rng.choice([0.0, rng.uniform(-1e3, 1e3)]) for _ in range(3)]
+        qs = []
+        for _ in range(rng.randrange(2, 6)):
+            if qs and rng.random() < 0.25:
+                qs.append(list(rng.choice(qs)))
+            else:
+                qs.append([rng.choice([1.0, 100.0, rng.uniform(0.01, 1e4)]),
+                           rng.choice([0.0, math.pi / 2, rng.uniform(0, math.pi / 2), -math.pi / 2]),
+                           rng.choice([0.0, math.pi, rng.uniform(0, TWO_PI)])])
+        yield 'projseq', {'p': P, 'queries': qs}
+        qs = []
+        for _ in range(rng.randrange(2, 7)):
+            if qs and rng.random() < 0.25:
+                qs.append(list(rng.choice(qs)))
+            else:
+                r = rng.choice([100, 1, rng.uniform(0.01, 1e4)])
+                ox, oy = rng.choice([(0.0, 0.0), (rng.uniform(-10, 10) * r, rng.uniform(-10, 10) * r)])
+                qs.append([rng.choice(['Orthographic', 'Stereographic', 'stereographic', 'orthographic', '3d',
+                                       'Stereographic', '3d', 'Mercator']),
+                           ox, oy, r])
+        yield 'sunseq', {'altitude': rng.choice([0, 90, 45, rng.uniform(0, 90)]),
+                         'azimuth': rng.choice([0, 90, 180, 270, 360, rng.uniform(0, 360)]),
+                         'north': rng.choice([0, 0, 0.0, 30, -45, rng.uniform(-180, 180)]), 'queries': qs}
+
+
+def _order_slice(ctx, rng):
+    """Cases for the process-order runs (real module state: objects `real` / `real_singleton`). The inputs of
+    the recorded findings are left out (they fail in any order)."""
+    cases = []
+    for h, stratum in _histories(ctx, rng, full=False):
+        if h['ops'] and (stratum.startswith('refused_first') or stratum in ('scribble', 'repeated')
+                         or rng.random() < 0.15):
+            h = dict(h, object=rng.choice(['real', 'real_singleton']))
+            cases.append(('hist', h, 0 if stratum.startswith('refused_first') else 2))
+    if ctx.quick and len(cases) > 24:
+        cases = rng.sample(cases, 24)
+    for n in (3, 2, 1):
+        for ip in (True, False):
+            cases.append(('sphere', {'n': n, 'in_place': ip}, 1))
+            cases.append(('dome', {'n': n, 'in_place': ip}, 3))
+            cases.append(('offset', {'offset_angle': rng.choice([30, 45, 60]), 'n': n, 'in_place': ip}, 2))
+    for order in ([1, 0], [0, 1], [1], [0]):
+        cases.append(('tables', {'order': order}, 2))
+    for c in _lazy_sequences(ctx, rng, pairs=False)[:ctx.n(3, 12)]:
+        cases.append(('lazy', dict(c, singleton=False), 2))
+    for az, alt in ((3, 2), (72, 18), (1, 2), (144, 2)):
+        cases.append(('radial', {'azimuth_count': az, 'altitude_count': alt}, 3))
+    for c in list(_compass_histories(ctx, rng))[:12]:
+        if not any(o['k'] == 'setr' and not isinstance(o['v'], str) and not o['v'] > 0 for o in c['ops']):
+            cases.append(('compass', c, 2))
+    for op, c in list(_proj_mode_cases(rng, 30)) + list(_seq_cases(rng, 15)):
+        cases.append((op, c, 3))
+    for c in _proj_points(rng, 40):
+        cases.append(('proj', c, 3))
+    for c in _polyline_cases(ctx, rng, 4):
+        cases.append(('polyline2d', c, 2))
+    return cases
+
+
+def _process_orders(ctx):
+    """Run the slice in fresh interpreters, each in another order (rare / failing cases first in the first)."""
+    rng = ctx.rng
+    cases = _order_slice(ctx, rng)
+    orders = [sorted(range(len(cases)), key=lambda i: (cases[i][2], i))]          # refused / rare first
+    if not ctx.quick or ctx.searching:
+        orders.append(list(reversed(orders[0])))                                    # common first
+    for _ in range(ctx.n(1, 2)):
+        sh = list(range(len(cases)))
+        rng.shuffle(sh)
+        orders.append(sh)
+    from concurrent.futures import ThreadPoolExecutor
+    seqs = [[[cases[i][0], cases[i][1]] for i in order] for order in orders]
+    with ThreadPoolExecutor(max_workers=4) as ex:            # the interpreters run side by side
+        results = list(ex.map(_run_in_fresh_process, seqs))
+    for k, (seq, res) in enumerate(zip(seqs, results)):
+        ctx.count('process_order:runs')
+        ctx.count('process_order:cases', len(seq))
+        ctx.case(('procorder', k, len(seq)))
+        if not res:
+            continue
+        i, r = res[0]
+        small = _shrink_order(seq, i) if i >= 0 else seq
+        if len(small) == 1:                   # fails in an interpreter of its own: report the case itself
+            sig = dict(r.get('sig') or {})
+            sig.pop('op', None)
+            ctx.fail(small[0][0], small[0][1], r.get('required'), r.get('observed'), sig)
+            break
+        out = check_case('procorder', {'order': small})
+        if out is None:                       # the cut went too far: keep the whole prefix
+            small = seq[:i + 1]
+            out = check_case('procorder', {'order': small})
+        if out is None:
+            out = {'required': r.get('required'), 'observed': r.get('observed'),
+                   'sig': dict(r.get('sig') or {}, what='in_process_order:unstable')}
+        ctx.fail('procorder', {'order': small}, out['required'], out['observed'], out['sig'])
+        break
+
+
 def oracle(ctx):
     def counted(op, inp):
         res = check_case(op, inp)
@@ -843,6 +1834,9 @@ def oracle(ctx):
             ctx.subclaim('tabulated_coefficients_match_mesh_solid_angles_1e-6',
                          not (res and res['sig'].get('what') in ('table_vs_mesh', 'table_sum')))
         return res
+    # the fresh interpreters first: what fails there is reported with a replay that was seen to fail in an
+    # interpreter of its own (cut down to the failing case alone where that is enough)
+    _process_orders(ctx)
     run_oracle_cases(ctx, _oracle_cases(ctx), counted)
 
 
@@ -854,6 +1848,10 @@ LEVEL_TEXT = ('Machine-checked Lean 4 theorems over an executable model of views
               'mesh (after the proposed repair), the two solid-angle tables are independent of read order (after '
               'the proposed repair) and sum to 2 pi within 1e-6; over the reals both projections map the upper '
               'hemisphere into the compass circle, keep the azimuth ray and are inverted by the inverse formulas. '
+              'A ViewSphere is modelled as an object state machine (eleven slots, no other memo): after any '
+              'history of reads, calls, refused calls and edited results every observation equals that of a fresh '
+              'object, refused calls change nothing, reads are order independent; the Compass altitude circles are '
+              'the projected altitude rings (refused radius assignment: known finding, counterexample theorem). '
               'Row tables and coefficients are regenerated from viewsphere.py on every run; the model is compared '
               'with the real code (mesh topology exactly, projections bit-exactly, weights to 1e-12).')
 LEVEL_NOTE = ('Trusted: Lean kernel; axioms propext/Classical.choice/Quot.sound only; the table extractor; the '
